@@ -172,6 +172,7 @@ type verSchema struct {
 	Preserve    bool
 	Desc        bool
 	TopExtra    bool // author redefines apiVersion/kind/metadata and adds a top-level property
+	Loose       bool // author adds spec/status properties without a type (not a structural schema)
 }
 
 func (s verSchema) String() string {
@@ -259,6 +260,9 @@ func (s verSchema) author(strip *crdKind) J {
 			}
 			sp[k] = collidingProp(k, s.Style)
 		}
+		if s.Loose {
+			sp["loose"] = J{"description": "a property without a type"}
+		}
 		if len(sp) > 0 {
 			spec["properties"] = sp
 		}
@@ -290,6 +294,9 @@ func (s verSchema) author(strip *crdKind) J {
 				continue
 			}
 			st[k] = collidingProp(k, s.Style)
+		}
+		if s.Loose {
+			st["looseOut"] = J{"description": "a status property without a type"}
 		}
 		status["properties"] = st
 		if s.Required == 2 {
